@@ -143,6 +143,45 @@ def no_err_after_write(chk, m, S, flavour):
     return roles
 
 
+def no_write_after_err(chk, m, S, flavour, roles=None):
+    """mirror image: once a function has stored a failure code into errno itself, no path may still reach a write into
+    the result buffer (the result would overwrite the failure token while the call reports failure, or the reverse)"""
+    R = "R-NO-WRITE-AFTER-ERR"
+    roles = roles if roles is not None else buffer_roles(m, S)
+    crm = S.const_ret_map()
+    for fn, k in sorted(roles):
+        F = m.functions[fn]
+        W = S.write_sites(F, k)
+        E = [e for e in S.errno_sites(F) if e[1] == "store" and isinstance(e[2], int) and e[2] != 0]
+        inst = "%s:%s(%s)" % (flavour, fn, F.vname(k))
+        if not W or not E:
+            chk.ok(R, inst)
+            continue
+        pf = ir.PathFinder(F, const_ret=crm)
+        wids = {w.id: w for w in W}
+        bad = None
+        def accept(st, trail, F=F):
+            if F.name in RELOAD_OK:
+                # contradictory facts about two loads of the same scratch field: infeasible (see RELOAD_OK)
+                lits = [ir.atom_str(F, a, st) for a in st.facts]
+                for p1, a1, b1 in lits:
+                    if p1 == "ne" and b1 == "0" and a1.startswith("load(") and ("eq", a1, "0") in lits:
+                        return False
+            return True
+        for e in E:
+            p = pf.search(e[0], lambda I: I.id in wids and I.id != e[0].id, blockers=(), start_state=pf.dominating_facts(e[0].block), accept=accept)
+            if p is not None:
+                bad = (e, p)
+                break
+        if bad:
+            e, p = bad
+            w = wids[p[-1][1].id]
+            chk.fail(R, inst, "%s stores the failure code %d into errno at line %d and can still write the result buffer afterwards (line %d, %s)" % (fn, e[2], e[0].line, w.line, w.callee or w.op),
+                     common.loc(e[0]), ir.path_desc(F, p))
+        else:
+            chk.ok(R, inst, sample={"function": fn, "buffer": F.vname(k), "failure_stores": len(E), "write_sites": len(W)})
+
+
 def must_write_or_err(m, S, fn, k, memo, crm):
     """True if every path entry->ret of fn writes buffer k or sets errno (directly / transitively / libc)."""
     key = (fn, k)
@@ -449,6 +488,7 @@ def run(chk, tier):
                  ("R-FILTER-DOM", "method call dominated by NULL / length / character / lookup rejections"),
                  ("R-FILTER-SPEC", "check_badsalt_chars == documented reject set (256 abstract evaluations + position cells)"),
                  ("R-NULL-IFF-STAR", "crypt_rn/crypt_ra return NULL iff output[0]=='*'"),
+                 ("R-NO-WRITE-AFTER-ERR", "once a function has stored a failure code into errno itself, no path still reaches a write into the result buffer"),
                  ("X-TOKEN", "make_failure_token over all sizes and setting heads")):
         chk.rule(r, d)
     for flavour in ("shared", "static"):
@@ -456,6 +496,7 @@ def run(chk, tier):
         S = summ.Summaries(m)
         token_first(chk, m, flavour)
         roles = no_err_after_write(chk, m, S, flavour)
+        no_write_after_err(chk, m, S, flavour, roles)
         vals = err_set(chk, m, S, flavour, roles)
         lits = filter_dom(chk, m, flavour)
         null_iff_star(chk, m, flavour)
